@@ -73,6 +73,8 @@ struct Case {
 	pace: Pace,
 	chunk: usize,
 	callbacks: usize,
+	/// playback rate (1, 2 or 4 source frames per output frame: the arithmetic stays exact)
+	stride: u32,
 }
 
 const RATE: u32 = 8000;
@@ -185,6 +187,9 @@ fn run_inner(c: &Case) -> Result<Outcome, Failure> {
 	}
 	if c.hold == Hold::Delayed {
 		settings = settings.start_time(kira::StartTime::Delayed(Duration::from_secs(10)));
+	}
+	if c.stride != 1 {
+		settings = settings.playback_rate(c.stride as f64);
 	}
 	let data = StreamingSoundData::from_decoder(dec).with_settings(settings);
 	let mark = streamctl::mark();
@@ -347,7 +352,8 @@ fn run_inner(c: &Case) -> Result<Outcome, Failure> {
 			let idx = idx as u32;
 			if let Some(p) = prev {
 				ensure!(idx > p, "no-repeated-or-reordered-frames", "output frame {i} carries source frame {idx} after source frame {p}; case {c:?}");
-				skipped += idx - p - 1;
+				// (at playback rate s consecutive output frames are s source frames apart)
+				skipped += (idx - p).saturating_sub(c.stride);
 			}
 			prev = Some(idx);
 		}
@@ -441,6 +447,7 @@ fn decode(src: &mut Src, ctx: &mut Ctx) -> Case {
 			pace: Pace::Ahead,
 			chunk: 16,
 			callbacks: frames / 16 + 4,
+			stride: 1,
 		};
 	}
 	let long = src.chance(1, 3);
@@ -492,11 +499,18 @@ fn decode(src: &mut Src, ctx: &mut Ctx) -> Case {
 		pace,
 		chunk,
 		callbacks,
+		stride: 1,
 	}
 	.with_hold(src)
+	.with_stride(src)
 }
 
 impl Case {
+	/// (drawn last, so that older tapes decode as before)
+	fn with_stride(mut self, src: &mut Src) -> Self {
+		self.stride = [1u32, 2, 4][src.weighted(&[3, 1, 1])];
+		self
+	}
 	fn with_hold(mut self, src: &mut Src) -> Self {
 		self.hold = [Hold::None, Hold::Paused, Hold::Delayed][src.weighted(&[3, 1, 1])];
 		self
@@ -511,7 +525,7 @@ impl Property for C10 {
 		"fault_enumeration"
 	}
 	fn rule(&self) -> &'static str {
-		"each case plays one streaming sound over a scripted decoder (index-coded frames, packet sizes 1..1152, seek granularity 1..64) through the real manager with a real decoding thread whose steps are scheduled through hook H2, under a fault plan (k-th decode() or seek() call fails once or forever), a scenario (main track, sub-track, sub-track paused beforehand, sub-track of a spatial track whose listener has been dropped; the sound itself playing, paused through its handle before its first callback, or waiting for a start time ten seconds away; natural end, stop() before callback j, refused by a full track, track handle dropped, manager dropped, left playing) and a decoder pace (ahead, n steps per callback, stalled after m steps). Oracles: a stop() with an instant tween reaches Stopped within two processed callbacks; the decoder object is released (its Drop is observed) within 4 s of the sound finishing / being stopped / failing / being refused or discarded; the decode loop runs at most 2w+50 times in an idle window of w ms; after a decoder error the sound is Stopped, unloaded one callback later, silent from then on, and pop_error() yields the first error; without faults the audible frames are a strictly increasing subsequence of the source with at most one frame skipped per gap of silence. Enumeration: every stream length 1..24 x packet size 1..4 x every fault position (decode call k, first / later seek, once / forever) on the main track and a sub-track, with the sound playing, paused or waiting for its start time. Non-trivial = a fault after at least one good packet, a discard scenario, or a starving decoder; distinct = distinct decoded choices."
+		"each case plays one streaming sound over a scripted decoder (index-coded frames, packet sizes 1..1152, seek granularity 1..64) through the real manager with a real decoding thread whose steps are scheduled through hook H2, under a fault plan (k-th decode() or seek() call fails once or forever), a scenario (main track, sub-track, sub-track paused beforehand, sub-track of a spatial track whose listener has been dropped; the sound itself playing, paused through its handle before its first callback, or waiting for a start time ten seconds away; natural end, stop() before callback j, refused by a full track, track handle dropped, manager dropped, left playing) and a decoder pace (ahead, n steps per callback, stalled after m steps). Oracles: a stop() with an instant tween reaches Stopped within two processed callbacks; the decoder object is released (its Drop is observed) within 4 s of the sound finishing / being stopped / failing / being refused or discarded; the decode loop runs at most 2w+50 times in an idle window of w ms; after a decoder error the sound is Stopped, unloaded one callback later, silent from then on, and pop_error() yields the first error; without faults the audible frames (at playback rate 1, 2 or 4) are a strictly increasing subsequence of the source, consecutive ones one playback step apart, with at most one extra frame skipped per gap of silence. Enumeration: every stream length 1..24 x packet size 1..4 x every fault position (decode call k, first / later seek, once / forever) on the main track and a sub-track, with the sound playing, paused or waiting for its start time. Non-trivial = a fault after at least one good packet, a discard scenario, or a starving decoder; distinct = distinct decoded choices."
 	}
 	fn assumptions(&self) -> Vec<String> {
 		vec![
